@@ -93,4 +93,4 @@ def ref_layout(name, side):
     e = REF["structures"].get(name)
     if e is None or e.get(side) is None:
         return None
-    return layout.from_json(e[side])
+    return layout.subsume(layout.from_json(e[side]))
